@@ -30,6 +30,7 @@ from django_components.context import _COMPONENT_CONTEXT_KEY, _INJECT_CONTEXT_KE
 from django_components.node import BaseNode
 from django_components.perfutil.component import component_context_cache
 from django_components.util.component_highlight import apply_component_highlight
+from django_components.util.context import snapshot_context
 from django_components.util.exception import add_slot_to_error_message
 from django_components.util.logger import trace_component_msg
 from django_components.util.misc import get_index, get_last_index, is_identifier
@@ -146,8 +147,10 @@ class SlotRef:
         self._render_ctx_layer = context.render_context.dicts[-1]
         # And the fill adds its own variables (slot data, variables captured by the `{% fill %}` tag) to this same
         # Context object. The slot's default content is rendered as if the slot tag was not there, so it must
-        # see only the layers that were there when we came across the slot.
-        self._context_layers = list(context.dicts)
+        # see only the layers that were there when we came across the slot - and as they were at that time,
+        # because the default content may be rendered much later (e.g. when `{{ default_var }}` is passed on to
+        # another component, after the `{% for %}` loop around the slot has moved on).
+        self._context_layers = snapshot_context(context).dicts
 
     # Render the slot when the template coerces SlotRef to string
     def __str__(self) -> str:
